@@ -187,10 +187,11 @@ class Executor:
                 frame.env[p] = args[p] = self.ev(defaults[p])
         if a.vararg and a.vararg.arg not in frame.env:
             frame.env[a.vararg.arg] = args[a.vararg.arg] = ct.params[a.vararg.arg].fresh(st, a.vararg.arg) if a.vararg.arg in ct.params else ()
-        if a.kwarg:
-            frame.env[a.kwarg.arg] = st.alloc(DictObj.empty(st, TStr, TVal))
         is_gen = any(isinstance(x, (ast.Yield, ast.YieldFrom)) for x in ast.walk(fi.node))
         old_heap = st.snapshot()
+        if a.kwarg:
+            # the **kwargs dict is a fresh local object of the call (not part of the entry heap: mutating it is invisible to the caller)
+            frame.env[a.kwarg.arg] = st.alloc(DictObj.empty(st, TStr, TVal))
         if is_gen:
             # a generator under contract: its result is the list of the yielded values (hidden local `__yield__`)
             frame.env["__yield__"] = self.coerce(self.models.make_list(self, []), ct.returns) if ct.returns is not None else self.models.make_list(self, [])
